@@ -85,7 +85,7 @@ struct World {
   Src *s = nullptr; struct event_base *base = nullptr; int prop = 17;
   int kind = K_SOCK; int nfilt = 0; bool asym = false;
   End e[2];
-  uint64_t wire_sent[2] = {0, 0}, wire_recv[2] = {0, 0};
+  uint64_t wire_sent[2] = {0, 0}, wire_recv[2] = {0, 0}; int n_early_peer_data = 0;
   bool faults_armed = false; bool any_fault = false;
   int passes = 0; bool cap_hit = false; bool in_turn = false; bool settling = false; int cb_depth = 0;
   int listener = -1; struct sockaddr_un lsa; socklen_t lsalen = 0;
@@ -697,7 +697,13 @@ static int run_case(const uint8_t *data, size_t size, int prop) {
       if (cm != CM_UNIX_REFUSED) {
         End &b = w.e[1]; int fd = accept4(w.listener, nullptr, nullptr, SOCK_NONBLOCK | SOCK_CLOEXEC);
         CHECK(fd >= 0, "harness/accept", "accept failed errno=%d", errno);
-        b.fd = fd; b.lib_closes_fd = (b.opts & BEV_OPT_CLOSE_ON_FREE) != 0; b.L[0].bev = bufferevent_socket_new(w.base, fd, b.opts); b.nl = 1; b.live = true;
+        b.fd = fd; b.lib_closes_fd = (b.opts & BEV_OPT_CLOSE_ON_FREE) != 0;
+        // (C19) the accepting side may speak first: a few bytes written on the raw socket before A's loop ever runs, so that A's socket is
+        // readable in the very iteration in which its connect completes.  The choice is derived from the hash of the choices made so far
+        // (no extra input byte is consumed, so existing replays decode as before).
+        if (prop == 19 && ((s.h >> 9) & 3) == 3) { size_t n = 1 + (size_t)((s.h >> 11) % 40); uint8_t tmp[40]; fill_pat(tmp, b.id, b.written, n); b.written += n;
+          ssize_t wr = write(fd, tmp, n); CHECK(wr == (ssize_t)n, "harness/early-write", "raw write on the accepted socket returned %zd", wr); w.n_early_peer_data++; TR("accepted side writes %zu byte(s) on the raw socket before its bufferevent exists", n); }
+        b.L[0].bev = bufferevent_socket_new(w.base, fd, b.opts); b.nl = 1; b.live = true;
         set_cbs(b, true, true, true); if (s.below(4) != 3) do_enable(b, EV_READ, "accept");
       }
       post_op("connect"); continue;
@@ -807,6 +813,7 @@ static int run_case(const uint8_t *data, size_t size, int prop) {
   if (w.e[0].wm_susp_seen || w.e[1].wm_susp_seen) verif_class("wm_suspended"); if (w.e[0].wm_resume_seen || w.e[1].wm_resume_seen) verif_class("wm_resumed");
   if (w.n_aimed) verif_class("aimed_rw"); if (w.any_cap) verif_class("f_record"); if (w.uw_limited) verif_class("uw_limited"); if (w.uw_partial) verif_class("uw_partial_record");
   if (w.in_cb_free) verif_class("free_in_callback"); if (w.in_cb_setcb) verif_class("setcb_in_callback");
+  if (w.n_early_peer_data) verif_class("peer_data_before_connect_completes");
   if (w.e[0].n_conn) verif_class("connected"); if (w.e[0].connect_failed) verif_class("connect_failed");
   if ((w.e[0].opts | w.e[1].opts) & BEV_OPT_THREADSAFE) verif_class("threadsafe"); if ((w.e[0].opts | w.e[1].opts) & BEV_OPT_DEFER_CALLBACKS) verif_class("deferred");
   int nontrivial = 0;
